@@ -192,6 +192,7 @@ func genC15(r *core.Rand, run int) *MuxScenario {
 	}
 	sp.Handler = h
 	sp.Fault.Kind = "abort"
+	sp.Slash = c.proto == "http" && r.Chance(1, 3)
 	sp.Fault.When = r.PickS("", "", "recv", "recv", "send", "early")
 	if r.Chance(1, 2) || sp.Fault.When == "send" {
 		sp.Window = r.Pick(1, 16, 64) // makes the handler park inside Send
